@@ -145,11 +145,13 @@ def run(ctx):
     ]
     # ------------------------------------------------------------ 1. exhaustive
     consts = dict(Runs="R2", Cap=2, StepBeh="BehAll", EmitRuns="R1", WithClose="TRUE", MaxUnsol=1)
+    # (sig: a caller with a signal write loop, so that the write-loop actions meet the breaking stream too)
     if thorough:
-        variants = [("full", consts)]
+        variants = [("full", consts), ("sig_close", dict(consts, StepBeh="BehOk", SigRuns="R1", EmitRuns="None", MaxUnsol=0))]
     else:
         variants = [("close_nounsol", dict(consts, EmitRuns="None", MaxUnsol=0)),
-                    ("unsol_noclose", dict(consts, EmitRuns="None", WithClose="FALSE"))]
+                    ("unsol_noclose", dict(consts, EmitRuns="None", WithClose="FALSE")),
+                    ("sig_noclose", dict(consts, StepBeh="BehOk", SigRuns="R1", EmitRuns="None", MaxUnsol=0, WithClose="FALSE"))]
     r = None
     for name, cc in variants:
         cfg = A.mc_cfg(os.path.join(ctx.tmp, "c08_mc_%s.cfg" % name), cc, invariants=INVS, spec="FSpec")
